@@ -95,7 +95,10 @@ def check(report: Report, repo: Repo) -> None:
         selfp.attrs[h] = Bound(it.get_global(PA, fn_), selfp)
     cons = f"{PA}::_parameter_reduce_ex"
     try:
+        before_keys = dict(selfp.attrs)
         r = it.call_function(f, [selfp, O("protocol")], {})
+        unchanged = set(selfp.attrs) == set(before_keys) and all(selfp.attrs[k] is before_keys[k] for k in before_keys)
+        report.add("R2-pickle-protocol", f"{cons}::source-untouched", unchanged, "pickling must not modify the parameter being saved (its instance __dict__ is live: removing the hooks from it untags every later copy of the *source*)", sorted(set(before_keys) - set(selfp.attrs)), [])
         ok = isinstance(r, tuple) and len(r) == 2 and isinstance(r[0], FuncV) and r[0].qualname == "_rebuild_parameter_with_state" and isinstance(r[1], tuple) and len(r[1]) == 4
         report.add("R2-pickle-protocol", f"{cons}::rebuild", ok, "reduce must return (library rebuild function, (data, requires_grad, hooks, state))", fmt(r), "(_rebuild_parameter_with_state, (data, requires_grad, OrderedDict(), state))")
         if ok:
